@@ -67,6 +67,7 @@ var slices = []sliceSpec{
 	{"x/storage/keeper/msg_server_buy_storage.go", "BuyStorage", "refCut"},
 	{"x/storage/keeper/msg_server_post_file.go", "PostFile", "days"},
 	{"x/storage/keeper/msg_server_post_file.go", "PostFile", "storageProviderCut"},
+	{"x/jklmint/keeper/mint.go", "BlockMint", "bpy"},
 }
 
 type tr struct {
@@ -690,6 +691,19 @@ func main() {
 							defs[id.Name] = as.Rhs[0]
 						}
 						count[id.Name] += 2
+					}
+				}
+			case *ast.DeclStmt:
+				if gd, ok := as.Decl.(*ast.GenDecl); ok {
+					for _, spc := range gd.Specs {
+						if vs, ok := spc.(*ast.ValueSpec); ok && len(vs.Names) == 1 && len(vs.Values) == 1 {
+							nm := vs.Names[0].Name
+							if count[nm] == 0 {
+								first[nm] = vs.Values[0]
+							}
+							defs[nm] = vs.Values[0]
+							count[nm]++
+						}
 					}
 				}
 			case *ast.IncDecStmt:
